@@ -27,7 +27,7 @@ import c02_fault
 
 META = {
     "category": "proof",
-    "text": "Coq theorems (Crash/Props_C02.v, closed under the global context): over an executable model of every file-system mutating call of KeyValueStore::open (log replay, idempotent link and manifest add, log to trash, orphan clean-up), write (log write then fdatasync before the acknowledgement), memtable flush and compaction (merging or garbage-collecting), a transition system with a crash before ANY call of ANY of them (recovery included), under ANY cut in which each file keeps a prefix of its write() calls covering the synced ones (process death and 'everything after the last fsync is lost' are both instances), any number of times, and in which a history goes on after an operation returned an I/O error that left every file recovery reads unchanged or was refused outright: reopening always succeeds and what it yields is explained by every acknowledged batch plus some of the batches in flight at a crash, each wholly or not at all, in order - every key reads as the last of those writes to it and no entry was not written; an injected I/O error at any call is returned unless the call is one of the two best-effort renames to trash/, and every state a failing operation passes through recovers. Tied to lsmtk by strace-recorded real histories: call sequences compared with the model's (through injected errors too: the faulted session is fully traced and the model takes the error in lock step), every step evaluated against the theorems' acceptance condition, crash images for both crash models (and cuts between them, and manifest cuts at line boundaries) reopened by the real store and compared with the model's prediction and with the acknowledgement record, real SIGKILL and EIO/ENOSPC injection.",
+    "text": "Coq theorems (Crash/Props_C02.v, closed under the global context): over an executable model of every file-system mutating call of KeyValueStore::open (log replay, idempotent link and manifest add, log to trash, orphan clean-up), write (log write then fdatasync before the acknowledgement), memtable flush and compaction (merging or garbage-collecting), a transition system with a crash before ANY call of ANY of them (recovery included), under ANY cut in which each file keeps a prefix of its write() calls covering the synced ones (process death and 'everything after the last fsync is lost' are both instances), any number of times, and in which a history goes on after an operation returned an I/O error that left every file recovery reads unchanged or was refused outright: reopening always succeeds and what it yields is explained by every acknowledged batch plus some of the batches in flight at a crash, each wholly or not at all, in order - every key reads as the last of those writes to it and no entry was not written; an injected I/O error at any call is returned unless the call is one of the two best-effort renames to trash/, and every state a failing operation passes through recovers. Tied to lsmtk by strace-recorded real histories: call sequences compared with the model's (through injected errors too: the faulted session is fully traced and the model takes the error in lock step), every step evaluated against the theorems' acceptance condition, crash images for both crash models (and cuts between them, and manifest cuts at line boundaries) reopened by the real store and compared with the model's prediction and with the acknowledgement record, real SIGKILL and EIO/ENOSPC injection. Stage open-fault: EIO injected at every system call of KeyValueStore::open (read side included) - the open fails or reads exactly the acknowledged state, and an undisturbed reopen afterwards does.",
     "note": "Trusted: Coq kernel; extraction (ExtrOcamlBasic) + ocaml/crash driver; harness c02 + lsmtk hooks (cfg blue_verif single-step); strace; checks/c02_fs.py (trace parser, inode-level replay into images). Modelled, not verified: the OS (completed calls atomic and ordered; create/link/unlink/rename/mkdir durable on return; data durable up to the last successful fsync/fdatasync); write() calls are the unit of loss (a crash inside a call / torn sectors are C09's subject); the byte formats (C10/C12/C13); the manifest as one append-only file of edits (rollover, backups, LOCKFILE are C13's and only exercised by the real images); setsum collisions excluded (an SST's name is its content); single-stepped execution (a compaction concurrent with the window between a flush's manifest edit and its log rename is not covered); that a garbage collection leaves every key's reading unchanged is C05's theorem (here it is evaluated on every step, `acceptedb`); after an I/O error that changed a file recovery reads (a failed fdatasync of the log or the manifest, a flush past its rollover, a compaction past its first link) the running store is judged against the specification only; tree re-levelling after reopen is C01's (K2).",
 }
 
